@@ -39,8 +39,14 @@ def _classify(w, forgotten, created, i):
     return "ended"
 
 
-def tpl_cancel(v, av, e, k, i1, i2, i3, t, m=0, sw=0, _twin=False):
-    w = World("c06.cancel")
+def tpl_cancelpark(k, i1, i2, i3, m, _twin=False):
+    """The two running tasks (ids 3 and 4) are both suspended in the same library call, pool.until_closed(), instead of
+    on futures of their own: cancelling one of them must not reach the other."""
+    return tpl_cancel(NOP, 0, 0, k, i1, i2, i3, 0, m, 0, _twin, 1)
+
+
+def tpl_cancel(v, av, e, k, i1, i2, i3, t, m=0, sw=0, _twin=False, pk=0):
+    w = World("c06.cancelpark" if pk else "c06.cancel")
     code = 0
     try:
         pool = TaskPool(pool_size=10)
@@ -48,7 +54,7 @@ def tpl_cancel(v, av, e, k, i1, i2, i3, t, m=0, sw=0, _twin=False):
         try:
             # fixed prologue: ids 0 flushed, 1 ended (inside its slow end callback), 2 cancelled (inside its slow
             # cancel callback), 3 and 4 running
-            it.apply(5, swallow=(1 if sw == 1 else 0)); w.settle()
+            it.apply(5, swallow=(1 if sw == 1 else 0), park=(pool.until_closed if pk else None), park_from=3); w.settle()
             it.release(0); w.settle()
             it.cb_release(0); w.settle()
             f0 = it.flush(True); w.settle()
@@ -179,5 +185,10 @@ def families(tier):
                 parts += [["v == %d" % v] + q + ["m == %d" % mm, "sw == %d" % ss] for mm in (0, 1) for ss in (0, 1)]
             else:
                 parts.append(["v == %d" % v] + q + extra)
+    PP = ["k", "i1", "i2", "i3", "m"]
+    prep = ["0 <= k <= 3", "0 <= m <= 1"]
+    partsp = [["k <= 1"], ["k == 2"]] + k3
     return [Family(name="cancel", fn="tpl_cancel", params=P, pre=pre, parts=parts,
-                   twin_pre=["v == %d" % NOP, "e == 0", "k == 2"], twin_args=[NOP, 0, 0, 2, 3, 4, 0, 0, 0, 0])]
+                   twin_pre=["v == %d" % NOP, "e == 0", "k == 2"], twin_args=[NOP, 0, 0, 2, 3, 4, 0, 0, 0, 0]),
+            Family(name="cancelpark", fn="tpl_cancelpark", params=PP, pre=prep, parts=partsp,
+                   twin_pre=["k == 2"], twin_args=[2, 3, 4, 0, 0])]
